@@ -164,6 +164,7 @@ impl Move {
                 s
             }
             Self::Promotion {
+                start,
                 end,
                 captured_piece,
                 new_piece,
@@ -171,6 +172,7 @@ impl Move {
             } => {
                 let mut s = String::new();
                 if captured_piece.is_some() {
+                    s.push(((start.col()) as u8 + b'a') as char);
                     s.push('x');
                 }
                 s.push(((end.col()) as u8 + b'a') as char);
@@ -179,8 +181,8 @@ impl Move {
                 s.push(match new_piece {
                     PieceType::Queen => 'Q',
                     PieceType::Rook => 'R',
-                    PieceType::Bishop => 'K',
-                    PieceType::Knight => 'B',
+                    PieceType::Bishop => 'B',
+                    PieceType::Knight => 'N',
                     _ => unreachable!(),
                 });
                 s
